@@ -22,6 +22,19 @@ def extra_seeds():
         for lst, b in ((req, ref.ldap_starttls_request(1, forms)), (resp, ref.ldap_starttls_response(0, 1, b'', b'', forms))):
             if b not in lst:
                 lst.append(b)
+    # SSL 2.0 hellos whose trailing variable-length fields are empty, so that the cipher specs are the last octets of
+    # the record - well-formed, and with a CIPHER-SPECS-LENGTH that cuts the last 3-octet kind short while every
+    # enclosing length stays consistent (an item must not be completed from what follows the record)
+    from mc.ref import tls_ref as tr
+    ssl2 = _CACHE.setdefault('cryptoparser.tls.record.SslRecord', [])
+    kinds = b'\x01\x00\x80\x07\x00\xc0'
+    for specs in (kinds, kinds[:3], kinds[:4], kinds[:5], kinds[:1], b''):
+        sh = (b'\x04\x00\x01\x00\x02' + tr.u16(5) + tr.u16(len(specs)) + tr.u16(0) + b'\x30\x03\x02\x01\x00' + specs)
+        ch = (b'\x01\x00\x02' + tr.u16(len(specs)) + tr.u16(0) + tr.u16(0) + specs)
+        for body in (sh, ch):
+            for rec in (tr.ssl2_record(body), tr.ssl2_record(body, 0, True)):
+                if rec not in ssl2:
+                    ssl2.append(rec)
     # OpenSSH certificate options the corpus does not have (lists of mixed kinds), reference-encoded: alone, in their
     # vector, and inside an Ed25519 v01 certificate - objects a changed constructor may refuse to build are still
     # reachable from the wire
